@@ -241,7 +241,7 @@ class IdentityLinearOperator(ConstantDiagLinearOperator):
         if lhs is None:
             return self._maybe_reshape_rhs(rhs)
         else:
-            sqrt_inv_matmul = lhs @ rhs
+            sqrt_inv_matmul = lhs @ self._maybe_reshape_rhs(rhs)
             inv_quad = lhs.pow(2).sum(dim=-1)
             return sqrt_inv_matmul, inv_quad
 
